@@ -300,6 +300,25 @@ func c11CleanupScenario(c *fw.Ctx, idx int, sc c11Cleanup) {
 		v.Send(kit.EncSubscribe(99, []string{"c11/late/a", "c11/late/+"}, []int{0, 1}))
 		expectEOF = false
 		go func() { time.Sleep(300 * time.Millisecond); v.Close() }()
+	case "displaced-then-newer-leaves":
+		// the client re-connects (same or other node), the NEWER session then leaves cleanly, and only
+		// afterwards does the old session reach its next keep-alive exchange: it was displaced and must end
+		target := nodes[(sc.host+1)%sc.nNodes]
+		newer, err = target.MustConnect(kit.ConnectOpts{ClientID: clientID, KeepAlive: 600, Clean: true})
+		if err != nil {
+			c.Violation("takeover-refused", fmt.Sprintf("%s: the newer connection was not accepted: %v", desc, err), wit(nil))
+			return
+		}
+		cl.StopPump()
+		cl.Quiesce()
+		newer.Send(kit.EncDisconnect())
+		newer.WaitClosed(10 * time.Second)
+		newer.Close()
+		newer = nil
+		time.Sleep(20 * time.Millisecond)
+		cl.Quiesce()
+		cl.StartPump(3 * time.Millisecond)
+		v.Send(kit.EncPingReq())
 	case "displaced-then-old-host-fails":
 		// the client re-connects on another node; the old host fails before the old session's next
 		// keep-alive exchange, i.e. while it still holds the displaced session and its subscriptions
@@ -432,7 +451,7 @@ func c11CleanupScenario(c *fw.Ctx, idx int, sc c11Cleanup) {
 }
 
 func runC11(c *fw.Ctx) {
-	c.Rule = "(A) no spurious end: clients with keep-alive 2/5/10 s idle for 0.5-0.75 of it right after CONNECT, after SUBSCRIBE or between pings, measuring their own send times, then send PINGREQ; verdict only if every measured gap stayed <= 0.8 x keep-alive. (B) cleanup: cause in {DISCONNECT, client closes, silence beyond the allowance, second CONNECT, undecodable packet, displacement on the same / another node followed by the old session's PINGREQ, failure of the hosting node, outbound write failure exactly at a SUBACK (fault-injecting connection), displacement followed by the failure of the old host before the old session's next keep-alive exchange} x subscription sets (none, one, several, after unsubscribes) x 1-3 nodes with a running gossip pump; observed: EOF at the client end, SessionMetadatas/Subscriptions listings and local registries of every node (polled <= 10 s), packets at the ended session's pipe after later publishes (witness barrier), and at quiescence the invariant 'every listed subscription belongs to a listed session connected on the node it names'. distinct = scenario parameters; non-trivial = all"
+	c.Rule = "(A) no spurious end: clients with keep-alive 2/5/10 s (and 40000 / 65535 s, idle 0.4-0.65 s) idle for 0.5-0.75 of it right after CONNECT, after SUBSCRIBE or between pings, measuring their own send times, then send PINGREQ; verdict only if every measured gap stayed <= 0.8 x keep-alive. (B) cleanup: cause in {DISCONNECT, client closes, silence beyond the allowance, second CONNECT, undecodable packet, displacement on the same / another node followed by the old session's PINGREQ, failure of the hosting node, outbound write failure exactly at a SUBACK (fault-injecting connection), displacement followed by the failure of the old host before the old session's next keep-alive exchange} x subscription sets (none, one, several, after unsubscribes) x 1-3 nodes with a running gossip pump; observed: EOF at the client end, SessionMetadatas/Subscriptions listings and local registries of every node (polled <= 10 s), packets at the ended session's pipe after later publishes (witness barrier), and at quiescence the invariant 'every listed subscription belongs to a listed session connected on the node it names'. distinct = scenario parameters; non-trivial = all"
 	c.Assume("keep-alive allowance: a client that never lets more than 0.8 x keep-alive pass between packets is within it (MQTT allows 1.5 x)")
 	c.Assume("teardown predicates are polled for <= 10 s; there is no code path that makes them true later than the teardown itself")
 	var wg sync.WaitGroup
@@ -440,6 +459,8 @@ func runC11(c *fw.Ctx) {
 		{2, 0.7, "afterConnect"}, {2, 0.7, "afterSubscribe"}, {2, 0.7, "betweenPings"},
 		{5, 0.7, "afterConnect"}, {5, 0.7, "afterSubscribe"}, {5, 0.7, "betweenPings"},
 		{10, 0.5, "afterConnect"},
+		// keep-alive values near the top of the 16-bit range are legal: the session must simply live
+		{40000, 0.00001, "afterConnect"}, {65535, 0.00001, "afterSubscribe"},
 	}
 	if !c.Quick() {
 		idles = append(idles, c11Idle{10, 0.75, "afterSubscribe"}, c11Idle{10, 0.75, "betweenPings"}, c11Idle{7, 0.75, "afterConnect"}, c11Idle{30, 0.5, "afterConnect"}, c11Idle{3, 0.75, "afterConnect"}, c11Idle{4, 0.78, "afterSubscribe"})
@@ -448,7 +469,7 @@ func runC11(c *fw.Ctx) {
 		wg.Add(1)
 		go func(i int, sc c11Idle) { defer wg.Done(); c11NoSpuriousEnd(c, i, sc) }(i, sc)
 	}
-	causes := []string{"disconnect", "close", "silence", "second-connect", "garbage", "displaced-same-node", "displaced-other-node", "node-failure", "suback-write-fails", "displaced-then-old-host-fails"}
+	causes := []string{"disconnect", "close", "silence", "second-connect", "garbage", "displaced-same-node", "displaced-other-node", "node-failure", "suback-write-fails", "displaced-then-old-host-fails", "displaced-then-newer-leaves"}
 	filterSets := [][]string{{}, {"c11/a"}, {"c11/a", "c11/+/b", "c11/#", "c11/c/d"}}
 	scen := []c11Cleanup{}
 	rg := c.SubRng("c11", 0)
